@@ -48,7 +48,7 @@ func cmdCorr(repo string, seed uint64, n int) int {
 			r := execOp(o, objs, shared, cryptKey)
 			target := o.d
 			switch o.code {
-			case 'C', 'c', 'X', 'B', 'N', 'Y', 'F':
+			case 'C', 'c', 'X', 'B', 'N', 'Y', 'F', 'A':
 				target = o.o
 			}
 			alias := "none"
